@@ -844,5 +844,60 @@ theorem advanceToRest_spec (K : CKernel) (it : Iter) (hi : it.Inv) (n : Nat) (hf
         intro b hb d hd
         exact hi.bk b hb d (List.mem_of_mem_drop hd)
 
+theorem advanceTo_spec (K : CKernel) (it : Iter) (hi : it.Inv) (n : Nat) :
+    (it.advanceTo n).rem = it.rem.filter (fun x => decide (n ≤ x)) ∧ (it.advanceTo n).Inv := by
+  have hidx : n % 65536 < 65536 := Nat.mod_lt _ (by omega)
+  unfold advanceTo Bitmap.hi16 Bitmap.lo16
+  simp only []
+  cases hf : it.front with
+  | none => exact advanceToRest_spec K it hi n hf
+  | some f =>
+    simp only []
+    have hfi := hi.fi f hf
+    -- everything after the front iterator has a larger high part than the front iterator
+    have hrest : ∀ x ∈ mid it.containers ++ orem it.back, f.key < x / 65536 := by
+      intro x hx
+      rcases List.mem_append.mp hx with hx | hx
+      · obtain ⟨c, hc, hxc⟩ := mid_hi K _ hi.cok x hx
+        have := hi.fr f hf c hc; omega
+      · obtain ⟨b, hb, hxb⟩ := orem_hi K it.back hi.bi x hx
+        have := hi.fb f b hf hb; omega
+    have hsplit : it.rem = f.rem ++ (mid it.containers ++ orem it.back) := by
+      simp [Iter.rem, hf, orem_some, List.append_assoc]
+    by_cases c1 : n / 65536 < f.key
+    · simp only [c1, ↓reduceIte]
+      refine ⟨?_, hi⟩
+      symm; apply filterGE_keep
+      intro x hx
+      rw [hsplit] at hx
+      rcases List.mem_append.mp hx with hx | hx
+      · have := K.rem_hi f hfi x hx; omega
+      · have := hrest x hx; omega
+    · simp only [c1, ↓reduceIte]
+      by_cases c2 : n / 65536 = f.key
+      · simp only [c2, ↓reduceIte]
+        obtain ⟨a1, a2, a3⟩ := K.advanceTo f (n % 65536) hfi hidx
+        refine ⟨?_, ?_⟩
+        · rw [hsplit]
+          simp only [Iter.rem, orem_some, List.filter_append, List.append_assoc]
+          rw [a1]
+          have : f.key * 65536 + n % 65536 = n := by omega
+          rw [this]
+          congr 1
+          rw [← List.filter_append]
+          symm; apply filterGE_keep
+          intro x hx; have := hrest x hx; omega
+        · exact hi.setFront (some (f.advanceTo (n % 65536))) (by
+            intro c' hc'; simp only [Option.some.injEq] at hc'; subst hc'
+            exact ⟨a2, f, hf, a3⟩)
+      · simp only [c2, ↓reduceIte]
+        have hinv' : Iter.Inv { it with front := none } := hi.clearFront
+        have := advanceToRest_spec K { it with front := none } hinv' n rfl
+        refine ⟨?_, this.2⟩
+        rw [this.1, hsplit]
+        simp only [Iter.rem, orem_none, List.nil_append, List.filter_append]
+        rw [filterGE_drop f.rem n (by intro x hx; have := K.rem_hi f hfi x hx; omega)]
+        simp
+
 end Iter
 end Roaring
